@@ -486,6 +486,10 @@ func (t *Topic) infoSubsOffline(from types.Uid, what string, seq int, skipSid st
 		if pud.deleted || pud.isChan || !mode.IsJoiner() || !mode.IsPresencer() || !mode.IsReader() {
 			continue
 		}
+		// Don't send key presses to the other sessions of the same user.
+		if uid == from && (what == "kp" || what == "kpa" || what == "kpv") {
+			continue
+		}
 
 		globals.hub.routeSrv <- &ServerComMessage{
 			Info: &MsgServerInfo{
